@@ -49,9 +49,12 @@ RULE = ('"parse" cases: a random 7-position core with two assembly types '
         'parsed in all 90 unit combinations plus every spelling; "reactor" '
         'cases: random single assemblies and small cores built and swept '
         'in SI and in a sample (quick) / all (thorough, part) of the '
-        'combinations; "witness" cases: minimal inputs for each flow unit, '
-        'spacer-grid default solidity, roughness, default dump interval. '
-        'A case is non-trivial when >= 20 dimensional entries were '
+        'combinations (param_update_tol off: thresholded property updates '
+        'amplify conversion round-off); "witness" cases: minimal inputs for '
+        'each flow unit, spacer-grid default solidity, roughness, default '
+        'dump interval, temperature rise vs absolute, region bounds written '
+        'to user precision. The 90-combination space is enumerated in every '
+        '"parse" case (values are sampled). A case is non-trivial when >= 20 dimensional entries were '
         'compared in >= 2 non-SI unit systems or a sweep of >= 10 steps '
         'with > 1 K rise was compared; distinct by (kind, features).')
 DECIDING = ['P1_supported_units_accepted', 'K1_dimensional_key_converted_once',
@@ -69,6 +72,41 @@ ASSUMPTIONS = ['numpy float64 arithmetic',
 TOL = 1e-12
 TEMPLATE = os.path.join(env.SRC, 'dassh', 'input_template.txt')
 
+# canonical names of the dimensional keys of the schema (monitor K1 names
+# the key of a mismatch with one of these)
+DIM_KEYS = ['Setup.axial_mesh_size', 'Setup.axial_plane',
+            'Setup.conv_approx_dz_cutoff', 'Setup.Dump.interval',
+            'Setup.AssemblyTables.axial_positions',
+            'Core.coolant_inlet_temp', 'Core.length', 'Core.assembly_pitch',
+            'Assembly.pin_pitch', 'Assembly.pin_diameter',
+            'Assembly.wire_pitch', 'Assembly.wire_diameter',
+            'Assembly.clad_thickness', 'Assembly.duct_ftf',
+            'AxialRegion.z_lo', 'AxialRegion.z_hi',
+            'AxialRegion.hydraulic_diameter', 'AxialRegion.epsilon',
+            'SpacerGrid.axial_positions',
+            'FuelModel.gap_thickness', 'FuelModel.fcgap_thickness',
+            'PinModel.gap_thickness', 'PinModel.fcgap_thickness',
+            'Orificing.bulk_coolant_temp',
+            'Assignment.flowrate', 'Assignment.outlet_temp',
+            'Assignment.delta_temp']
+
+
+def extra_coverage(results):
+    """Which dimensional keys were seen stored correctly, in how many
+    parses; which of the table were never exercised."""
+    ok = {}
+    for r in results:
+        for k, v in r.get('tags', {}).items():
+            if k.startswith('key_ok:'):
+                ok[k[7:]] = ok.get(k[7:], 0) + v
+    return {'dimensional_keys_stored_as_SI': ok,
+            'dimensional_keys_never_stored_as_SI': [k for k in DIM_KEYS
+                                                    if not ok.get(k)],
+            'unit_combinations_per_parse_case': len(U.all_combos()),
+            'schema_leaves': len(U.template_leaf_paths(TEMPLATE)),
+            'schema_leaves_dimensional': len(
+                [p for p in U.template_leaf_paths(TEMPLATE)
+                 if U.SCHEMA.get(p, '-') != '-'])}
 
 
 
